@@ -62,6 +62,13 @@ def oracle_pass(chk, scripts, traces, props, pristine=False):
                     lost_at[cid0] = rec['op']
             for cid0 in nowg:
                 lost_at.pop(cid0, None)
+            # C01_refused_update_restores_allocation on the real code: a refused UpdateContainer leaves the container's grant as it was
+            if rec['op'] == 'UpdateContainer' and rec['reply']['class'] == 'err' and prevg is not None:
+                ucid = (ev.get('ctr') or {}).get('id')
+                nowgr = {g['id']: g for g in ((rec.get('ta') or {}).get('grants') or [])}
+                if ucid in prevg and (ucid not in nowgr or any(prevg[ucid][k] != nowgr[ucid][k] for k in ('pool', 'exclusive', 'portion', 'cputype'))):
+                    fs.append(dict(fsoracle.F('C01', 'refused-update-keeps-allocation', 'refused-update-changed-allocation',
+                                              'UpdateContainer of %s was refused and its allocation went from %s to %s' % (ucid, prevg[ucid], nowgr.get(ucid)), rec['seq']), ctr=ucid))
             fs = [dict(f, sig=f['sig'] + ':after-update-request') if f['sig'] == 'overlapping-container-has-no-grant' and lost_at.get(f.get('ctr')) == 'UpdateContainer' else f for f in fs]
             if ev.get('op') in ('Reconfigure', 'Restart'):
                 reinstated = True
@@ -118,6 +125,7 @@ def run(tier, seed, replay=None):
     nfind = oracle_pass(chk, scripts, traces, ('C01',))
     stats, bad = ta_correspondence(chk, traces, scripts=scripts)
     pstats = pins_correspondence(chk, traces, scripts)
+    pstats['distinct_trees_nested'] = nested_trees_check(chk, traces)
     nt = sum(1 for r in traces.values() if nontrivial_history(r))
     events = sum(len(r) for r in traces.values())
     chk.samples += [{'history': s['name'], 'machine': s['_machine']['name'], 'config': s['config'], 'first_events': [e['op'] for e in s['events'][:12]]} for s in scripts[:2]]
